@@ -43,6 +43,19 @@ def step (_ : Unit) (ws : List String) : Unit × String :=
     | ["query", x, eq, sep] => match arg x, arg eq, arg sep with
         | .ok b, .ok [e], .ok [s] => showPairs (parseQueries b e s)
         | _, _, _ => "bad-op"
+    | ["queryalias", x, k, eq, sep] => match arg x, arg k, arg eq, arg sep with
+        -- a table with unique keys that holds the query text `x` under `k`; the pairs of `x` are put into
+        -- it in order (a put removes the entries of that name and appends). The parser works on a private
+        -- copy of the text: re-defining `k` does not change what is parsed.
+        | .ok b, .ok kb, .ok [e], .ok [s] =>
+          let q := b.takeWhile (· != 0)
+          (match parseQueries q e s with
+           | .ok ps =>
+             let key := kb.takeWhile (· != 0)
+             let t := ps.foldl (fun (t : List (Bytes × Bytes)) (p : Bytes × Bytes) => t.filter (fun e => e.1 != p.1) ++ [p]) [(key, q)]
+             s!"ok {ps.length}" ++ String.join (t.map fun (n, v) => s!" {hx n}={hx v}")
+           | .error f => faultStr f)
+        | _, _, _, _ => "bad-op"
     | _ => "bad-op"
   ((), out)
 
